@@ -28,7 +28,11 @@ Open Scope N_scope.
 
 Definition T_ldelim : tok := tk pit_LeftDelim 0 [123].
 Definition T_rdelim_end : tok := tk pit_RightDelimEnd 0 [47; 125].
-Definition kw (ty p : N) : tok := tk ty p [].
+(* a keyword item: its text is the command name as the scanner sends it ("if", "/if", "css", ...),
+   looked up in the scanner's own table (Generated/Tables.v builtin_idents) *)
+Definition kw_text (ty : N) : bstr :=
+  match find (fun e : bstr * N => snd e =? ty) builtin_idents with Some e => fst e | None => [] end.
+Definition kw (ty p : N) : tok := tk ty p (kw_text ty).
 Definition close_tag (ty : N) : list tok := [T_ldelim; kw ty 0; T_rdelim].
 
 Definition v_in := Eval vm_compute in b "in".
